@@ -96,7 +96,7 @@ Proof.
   intros z a H. destruct the_nsf_loaded as [s E]. unfold rec_okb.
   rewrite (the_nd_rec s E) in *. unfold neutron_of in *.
   destruct (rec_of s z a) as [r|] eqn:Er; [|discriminate H].
-  unfold rec_of in Er. destruct (rid_of s z a) as [i|]; [|discriminate].
+  unfold rec_of in Er. destruct (rid_of s z a) as [i|]; [|discriminate Er].
   pose proof (on_st_elim _ _ s sweep_rec_ok_c E) as Hs.
   pose proof (all_recs_elim s _ Hs i r Er) as Hr. cbn beta in Hr. rewrite H in Hr. exact Hr.
 Qed.
